@@ -82,13 +82,61 @@ def inline(fi, e, depth=0):
     return vals or [e]
 
 
+class _Canon(ast.NodeTransformer):
+    """one spelling: x.transpose() -> x.T ; check_numeric(x) -> x"""
+
+    def visit_Call(self, node):
+        self.generic_visit(node)
+        if isinstance(node.func, ast.Attribute) and node.func.attr == 'transpose' and not node.args and not node.keywords:
+            return ast.copy_location(ast.Attribute(value=node.func.value, attr='T', ctx=ast.Load()), node)
+        if isinstance(node.func, ast.Name) and node.func.id == 'check_numeric' and len(node.args) == 1:
+            return node.args[0]
+        return node
+
+
+def inline_deep(fi, e, depth=0):
+    """every reading of `e` obtained by replacing locals with (each of) their definitions"""
+    import copy
+    import itertools
+    defs = {}
+    for n in walk_no_nested(fi.node):
+        if isinstance(n, ast.Assign) and len(n.targets) == 1 and isinstance(n.targets[0], ast.Name):
+            defs.setdefault(n.targets[0].id, []).append(n.value)
+    params = set(fi.params)
+    names = sorted({x.id for x in ast.walk(e) if isinstance(x, ast.Name) and isinstance(x.ctx, ast.Load)
+                    and x.id in defs and len(defs[x.id]) <= 3})
+    if not names or depth > 2:
+        return [ast.fix_missing_locations(_Canon().visit(copy.deepcopy(e)))]
+    out = []
+    for combo in itertools.islice(itertools.product(*[defs[n_] + ([ast.Name(id=n_, ctx=ast.Load())] if n_ in params else [])
+                                                      for n_ in names]), 12):
+        table = dict(zip(names, combo))
+
+        class _S(ast.NodeTransformer):
+            def visit_Name(self, node):
+                if isinstance(node.ctx, ast.Load) and node.id in table and \
+                        not (isinstance(table[node.id], ast.Name) and table[node.id].id == node.id):
+                    return copy.deepcopy(table[node.id])
+                return node
+        new = _S().visit(copy.deepcopy(e))
+        if ntext(new) == ntext(e):
+            out.append(ast.fix_missing_locations(_Canon().visit(new)))
+        else:
+            out.extend(inline_deep(fi, new, depth + 1))
+    return out
+
+
 def result_consts(repo, fi, cls_fq, field):
     out = []
     for n in walk_no_nested(fi.node):
-        if isinstance(n, ast.Return) and isinstance(n.value, ast.Call) and isinstance(n.value.func, ast.Name):
-            r = repo.resolve_name(fi.module, n.value.func.id)
+        val = n.value if isinstance(n, ast.Return) else None
+        if isinstance(val, ast.Name):
+            from .common import expand_locals as _xl
+            val = _xl(fi.node, val, depth=1)                 # out = Affine(..); return out
+        if isinstance(n, ast.Return) and isinstance(val, ast.Call) and isinstance(val.func, ast.Name):
+            r = repo.resolve_name(fi.module, val.func.id)
             if isinstance(r, ClassInfo) and r.fq == cls_fq:
-                env = bind_args(repo.resolve_method(r, '__init__'), n.value)
+                env = bind_args(repo.resolve_method(r, '__init__'), val)
                 if env and field in env:
                     out.append((n, env[field]))
     return out
@@ -99,15 +147,16 @@ def run(repo):
     res.floor = 18
     # shape is the constant's shape
     init = repo.func('lp.Affine.__init__')
-    ok = any(isinstance(n, ast.Assign) and is_self_attr(n.targets[0], 'shape') and ntext(n.value) == 'const.shape'
-             for n in walk_no_nested(init.node))
+    from .common import expand_locals
+    ok = any(isinstance(n, ast.Assign) and is_self_attr(n.targets[0], 'shape') and
+             ntext(expand_locals(init.node, n.value)) == 'const.shape' for n in walk_no_nested(init.node))
     res.inst({'Affine.shape': 'const.shape', 'ok': ok}, ok)
     if not ok:
         res.fail(Finding(RULE, init.fq, 'self.shape = const.shape', 'Affine.shape is no longer the shape of '
                          'the constant part', repo.where(init), P))
     init2 = repo.func('lp.RoAffine.__init__')
-    ok = any(isinstance(n, ast.Assign) and is_self_attr(n.targets[0], 'shape') and ntext(n.value) == 'affine.shape'
-             for n in walk_no_nested(init2.node))
+    ok = any(isinstance(n, ast.Assign) and is_self_attr(n.targets[0], 'shape') and
+             ntext(expand_locals(init2.node, n.value)) == 'affine.shape' for n in walk_no_nested(init2.node))
     res.inst({'RoAffine.shape': 'affine.shape', 'ok': ok}, ok)
     if not ok:
         res.fail(Finding(RULE, init2.fq, 'self.shape = affine.shape', 'RoAffine.shape is no longer the shape '
@@ -123,7 +172,13 @@ def run(repo):
             if not rcs:
                 raise AnalysisError('%s: no `return %s(...)` found' % (fi.fq, ci.name))
             for node, e in rcs:
-                cands = inline(fi, e)
+                cands = inline_deep(fi, e)
+                # keep the fully resolved readings (a self-referential definition leaves residue)
+                local_defs = {n_.targets[0].id for n_ in walk_no_nested(fi.node) if isinstance(n_, ast.Assign)
+                              and len(n_.targets) == 1 and isinstance(n_.targets[0], ast.Name)} - set(fi.params)
+                full = [c for c in cands if not any(isinstance(x, ast.Name) and x.id in local_defs for x in ast.walk(c))]
+                cands = full or cands
+                cands = list({ntext(c): c for c in cands}.values())
                 base = 'self.' + field
                 par = fi.params[1] if len(fi.params) > 1 else ''
                 # the numeric branch(es): at least one definition must be the mirrored operation, and
